@@ -242,8 +242,13 @@ func VerifC09DomainConfigured() {
 	switch vnd.Pick(4) {
 	case 0:
 		p := NewParser(WithSpecialSchemes(map[string]string{"ftp": "21", "file": "", "http": "80", "https": "443", "ws": "80", "wss": "443", "gopher": "70", "g": "7", "coffeepot": "80"}))
-		scheme := []string{"gopher", "g", "coffeepot"}[vnd.Pick(3)]
+		scheme := []string{"gopher", "g", "coffeepot", "file", "wss"}[vnd.Pick(5)]
 		u, err = p.Parse(scheme + "://" + w + "/")
+		if scheme == "file" {
+			// a built-in scheme listed again in the configured table keeps its own host rules
+			// (file: localhost becomes the empty host)
+			d, derr = Parse("file://" + w + "/")
+		}
 	case 1:
 		u, err = NewParser(WithPostParseHostFunc(func(_ *Url, h string) string { return h })).Parse("http://" + w + "/")
 	case 2:
